@@ -256,6 +256,8 @@ pub fn shard_runs(
     }
     drop(tx);
 
+    let known_sigs: HashSet<String> =
+        load_known(ctx).into_iter().filter(|k| k.property == ctx.id && k.status == "known").map(|k| k.signature).collect();
     let mut agg = Agg::default();
     let mut alive: HashSet<usize> = (0..threads).collect();
     let mut unknown_viols = 0usize;
@@ -265,7 +267,7 @@ pub fn shard_runs(
                 alive.remove(&shard);
             }
             Ok((_shard, Some((run, rseed, out)))) => {
-                unknown_viols += out.viols.len();
+                unknown_viols += out.viols.iter().filter(|v| !known_sigs.contains(&v.signature)).count();
                 agg.absorb(phase, run, rseed, out, 6);
                 if unknown_viols >= 40 {
                     stop.store(true, Ordering::Relaxed);
